@@ -483,6 +483,29 @@ fn check_one<CS: BbsCiphersuite>(rep: &Report, ck: &str, c: &Case) -> CheckResul
     for e in edits_of(&ph, &mut st) {
         cx.expect_reject("blind_proof_verify", "ph-edit", || pv(&proof, Some(l), &dm, &dcm, &di, &dci, hdr, e.as_deref(), pk), || "".into())?;
     }
+    // a component replaced by another component of the same statement (a default that borrows the header when no
+    // presentation header is given, or the like, makes the two spellings one statement)
+    {
+        let hb = header.clone().unwrap_or_default();
+        let phb = ph.clone().unwrap_or_default();
+        let mut borrowed: Vec<(&str, Vec<u8>)> = vec![("the public key octets", pk.to_bytes().to_vec())];
+        if let Some(x) = msgs.first() {
+            borrowed.push(("the first signer message", x.clone()));
+        }
+        if let Some(x) = cm.first() {
+            borrowed.push(("the first committed message", x.clone()));
+        }
+        for (what, val) in borrowed.iter().cloned().chain([("the header", hb.clone())]) {
+            if val != phb {
+                cx.expect_reject("blind_proof_verify", "ph-borrowed", || pv(&proof, Some(l), &dm, &dcm, &di, &dci, hdr, Some(&val), pk), || format!("presentation header := {}", what))?;
+            }
+        }
+        for (what, val) in borrowed.iter().cloned().chain([("the presentation header", phb.clone())]) {
+            if val != hb {
+                cx.expect_reject("blind_proof_verify", "header-borrowed", || pv(&proof, Some(l), &dm, &dcm, &di, &dci, Some(&val), phd, pk), || format!("header := {}", what))?;
+            }
+        }
+    }
     {
         let mut k2 = c.key.clone();
         k2.fixture = false;
@@ -611,7 +634,7 @@ pub fn run(ctx: &Ctx, rep: &Report) -> Meta {
         rule: "honest blind run (L = 0..4 signer messages, M = 0..3 committed) then group 1: every single-bit flip of the commitment octets (all bits for the all-bit-flips runs, 64 sampled otherwise), \
                point/proof of different runs, proof for other messages, other suite, whole-scalar removal / duplication / insertion / truncation / extension at every position -> blind_sign must return Err; \
                group 2: single edits of committed messages, signer messages, boundary moves, blinding factor (other, None, one bit), header, pk, suite -> verify_blind_sign Err; \
-               group 3: single edits of disclosed data of either kind, index moves, list shapes (surplus signer / committed message, surplus index, a never-signed entry under a repeated index before or after the genuine pair), L-1 / L+1 / None / L+M+1, header, ph, pk, proof bit flips, plain verifier, other suite -> blind_proof_verify Err; \
+               group 3: single edits of disclosed data of either kind, index moves, list shapes (surplus signer / committed message, surplus index, a never-signed entry under a repeated index before or after the genuine pair), L-1 / L+1 / None / L+M+1, header, ph, header or ph := another component of the statement (the other of the two, the public key octets, the first signer / committed message), pk, proof bit flips, plain verifier, other suite -> blind_proof_verify Err; \
                size sweep over every M in 4..=40 (quick) / 4..=130 (thorough) and 63..65, the sweep cases under contention, the point at infinity as commitment with made-up or honest response scalars, a commitment point shifted by the order-3 point (0, 2) with a proof ground until its challenge is a multiple of 3, the just-accepted octets replayed to the other suite, a refused commitment presented again; a panic counts as not accepted here and is reported under C08; non-trivial = honest run with M >= 1 and all three groups executed"
             .into(),
         assumptions: vec!["accidental acceptance would need a hash collision or a discrete-log relation between generators".into()],
